@@ -193,7 +193,7 @@ def run(c, chk):
     for tr in model.transitions(0, T['STR']):
         if tr.kind == 'next' and tr.assumes('cfg->flags has IGNORE_UNKNOWN') and tr.next_state not in (None,):
             conds = tr.cond()
-            if any(x.startswith('!cfg_getopt()') for x in conds):
+            if any(pm.NOTFOUND.match(x) for x in conds):
                 entry = tr.next_state
                 entry_tr = tr
     if entry is None:
@@ -264,7 +264,7 @@ def run(c, chk):
 
     # ---- R12.3 -------------------------------------------------------------------
     unk = [tr for tr in model.transitions(0, T['STR'])
-           if any(x.startswith('!cfg_getopt()') for x in tr.cond()) and tr.assumes('cfg->flags has IGNORE_UNKNOWN', False)
+           if any(pm.NOTFOUND.match(x) for x in tr.cond()) and tr.assumes('cfg->flags has IGNORE_UNKNOWN', False)
            and tr.assumes('cfg->flags has KEYSTRVAL', False)]
     if not unk:
         chk.fail('R12.3', 'no-unknown-arm', c.where(model.fn), 'no residual path for an unknown name without the flag')
